@@ -278,7 +278,7 @@ type outcome struct {
 	fwdDelivered int64
 }
 
-func runStream(c Case, limit time.Duration) (o outcome) {
+func runStream(c Case, quiet time.Duration) (o outcome) {
 	ta, tb, err := tcpPair()
 	if err != nil {
 		o.harnessErr = "tcp pair: " + err.Error()
@@ -298,6 +298,11 @@ func runStream(c Case, limit time.Duration) (o outcome) {
 	fwdLimit := len(wantFwd) + len(wantOwn) + c.CutLen + 1
 	for _, n := range c.Side {
 		fwdLimit += n
+	}
+	for _, op := range c.Ops {
+		if op.Inj != nil {
+			fwdLimit += op.Inj.Len
+		}
 	}
 	wantRev := revModel(c)
 
@@ -477,11 +482,38 @@ func runStream(c Case, limit time.Duration) (o outcome) {
 
 	coreDone := make(chan struct{})
 	go func() { core.Wait(); close(coreDone) }()
-	timer := time.NewTimer(limit)
-	select {
-	case <-coreDone:
-		timer.Stop()
-	case <-timer.C:
+	// Stall detection by lack of progress: the run is declared stuck when neither a
+	// goroutine finished nor a byte was delivered for `quiet`; hardCap bounds a run that
+	// keeps crawling (then inconclusive).
+	snapshot := func() [6]int64 {
+		b2i := func(b *atomic.Bool) int64 {
+			if b.Load() {
+				return 1
+			}
+			return 0
+		}
+		return [6]int64{b2i(&fwDone), b2i(&frDone), b2i(&rwDone), b2i(&rrDone), fwdProgress.Load(), revProgress.Load()}
+	}
+	last, lastChange, start := snapshot(), time.Now(), time.Now()
+	tick := time.NewTicker(20 * time.Millisecond)
+wait:
+	for {
+		select {
+		case <-coreDone:
+			break wait
+		case <-tick.C:
+		}
+		now := time.Now()
+		if cur := snapshot(); cur != last {
+			last, lastChange = cur, now
+			continue
+		}
+		if now.Sub(lastChange) < quiet && now.Sub(start) < hardCap {
+			continue
+		}
+		if now.Sub(lastChange) < quiet {
+			o.harnessErr = fmt.Sprintf("case still making slow progress after %v", hardCap)
+		}
 		o.timedOut = true
 		var s []string
 		for _, f := range []struct {
@@ -494,7 +526,9 @@ func runStream(c Case, limit time.Duration) (o outcome) {
 		}
 		o.stuck = strings.Join(s, ",")
 		o.fwdDelivered = fwdProgress.Load()
+		break wait
 	}
+	tick.Stop()
 	close(abort)
 	ta.Close()
 	tb.Close()
@@ -506,6 +540,9 @@ func runStream(c Case, limit time.Duration) (o outcome) {
 			o.harnessErr = "goroutines still blocked after closing the transport"
 			return
 		}
+	}
+	if o.harnessErr != "" {
+		o.timedOut = false
 	}
 	aux.Wait()
 	ca.Close()
@@ -779,7 +816,20 @@ func summarize(c Case) any {
 		"cut": c.Cut, "cut_len": c.CutLen, "duplex": c.Duplex, "reverse": c.Reverse, "read_sizes": c.ReadSizes}
 }
 
-const watchdog = 30 * time.Second
+// A typical case takes ~10 ms. The first stall of a process is judged with a 6 s
+// no-progress window and re-run once with 12 s; once a stall has been confirmed that
+// way, later cases (rapid's shrinking re-runs) use 2 s / 4 s so that a hanging
+// implementation does not cost minutes per attempt.
+const hardCap = 180 * time.Second
+
+var stallConfirmed atomic.Bool
+
+func quietWindow() time.Duration {
+	if stallConfirmed.Load() {
+		return 2 * time.Second
+	}
+	return 6 * time.Second
+}
 
 func checkStream(t vkit.TB, c Case) {
 	if len(c.ReadSizes) == 0 {
@@ -788,11 +838,14 @@ func checkStream(t vkit.TB, c Case) {
 	if len(c.RevReadSizes) == 0 {
 		c.RevReadSizes = []int{4096}
 	}
-	o := runStream(c, watchdog)
+	o := runStream(c, quietWindow())
 	if o.timedOut && o.harnessErr == "" {
 		// "end-of-stream is delivered" is the property: bounded wait, re-run once before reporting
 		vkit.AddExtra("stream_watchdog_reruns", 1)
-		o = runStream(c, 2*watchdog)
+		o = runStream(c, 2*quietWindow())
+		if o.timedOut && o.harnessErr == "" {
+			stallConfirmed.Store(true)
+		}
 	}
 	if o.harnessErr != "" {
 		vkit.Skipped(1)
